@@ -4,6 +4,8 @@ import (
 	"fmt"
 	"go/token"
 	"go/types"
+	"sort"
+	"strings"
 
 	"golang.org/x/tools/go/ssa"
 )
@@ -387,6 +389,7 @@ func runC08(p *Program, r *Report) {
 		return
 	}
 	checkThreadedState(p, r, "R08b", []*ssa.Function{e}, 2)
+	checkGeometryConsistent(p, r, "R08d", []*ssa.Function{e})
 
 	r.Rule("R08c", "INVERSE-ORDER: the cached-proof undo reverts the additions of the block before its deletions, and reverts the deletions for the leaf count the forest had before the additions (numLeaves - numAdds)")
 	key := "(*Proof).Undo/inverse-order"
@@ -445,7 +448,8 @@ func init() {
 			"Structural necessary conditions: R08a (E7) - in (*Proof).Undo and everything it reaches, hashes are paired with positions of the same order class at every pairing site and a " +
 			"caller-ordered list never reaches a function that requires sorted input; R08b - when an undo helper returns the updated version of a list it was given, the caller takes it " +
 			"over instead of going on with the list it passed in; R08c - the additions of the block are reverted before its deletions and the deletion step works with the leaf count " +
-			"before the additions (numLeaves - numAdds).",
+			"before the additions (numLeaves - numAdds); R08d - within one function the elements of a position list that the function never writes are handed to leaf-count-dependent " +
+			"position functions with one and the same leaf count (a contradiction rule).",
 		NotDecided: "every numerical clause: which positions survive pruneEdges, calcPrevPosition, which leaves are kept or dropped, canonicity of the resulting proof, undo depth and redo.",
 		Rules: []RuleDef{
 			{ID: "R08", Statement: "threaded undo state; inverse order of the two phases", Run: runC08},
@@ -456,4 +460,125 @@ func init() {
 			}},
 		},
 	})
+}
+
+// ---------------------------------------------------------------------------
+// R08d GEOMETRY-CONSISTENT (a contradiction rule, Engler et al.: if the same
+// value is treated in two incompatible ways, one of them is wrong). A position
+// means something only relative to a leaf count. When the elements of a list
+// that the function never writes (a parameter such as the destroyed roots of
+// the block) are handed to a leaf-count-dependent position function together
+// with numLeaves at one site and with numLeaves-numAdds at another, the list
+// is read in the geometry of two different forests.
+
+func checkGeometryConsistent(p *Program, r *Report, rule string, entries []*ssa.Function) {
+	r.Rule(rule, "GEOMETRY-CONSISTENT: within one function of the cached-proof undo, the elements of a position list that the function never writes are handed to leaf-count-dependent position functions with one and the same leaf count")
+	reach := p.StaticReach(entries...)
+	for _, e := range entries {
+		reach[e] = true
+	}
+	n := 0
+	for _, g := range sortedFuncs(p, reach) {
+		if g.Blocks == nil || !p.owns(g) {
+			continue
+		}
+		// lists of g that are never written through
+		written := map[ssa.Value]bool{}
+		for _, b := range g.Blocks {
+			for _, in := range b.Instrs {
+				if st, ok := in.(*ssa.Store); ok {
+					if ia, ok := st.Addr.(*ssa.IndexAddr); ok {
+						written[ia.X] = true
+					}
+				}
+			}
+		}
+		type use struct {
+			cls  string
+			call *ssa.Call
+		}
+		uses := map[*ssa.Parameter][]use{}
+		for _, sc := range callsIn(p, g) {
+			callee := sc.call.Common().StaticCallee()
+			if callee == nil || !p.owns(callee) || callee.Blocks == nil {
+				continue
+			}
+			// the callee's leaf-count parameter
+			li := -1
+			for i, par := range callee.Params {
+				if isUint64(par.Type()) && strings.EqualFold(par.Name(), "numLeaves") {
+					li = i
+				}
+			}
+			args := sc.call.Common().Args
+			if li < 0 || li >= len(args) {
+				continue
+			}
+			cls := leafCountClass(args[li])
+			if cls == "" {
+				continue
+			}
+			for i, a := range args {
+				if i == li || !isUint64(a.Type()) {
+					continue
+				}
+				u, ok := a.(*ssa.UnOp)
+				if !ok {
+					continue
+				}
+				ia, ok := u.X.(*ssa.IndexAddr)
+				if !ok {
+					continue
+				}
+				par, ok := ia.X.(*ssa.Parameter)
+				if !ok || written[par] {
+					continue
+				}
+				uses[par] = append(uses[par], use{cls, sc.call})
+			}
+		}
+		var pars []*ssa.Parameter
+		for par := range uses {
+			pars = append(pars, par)
+		}
+		sort.Slice(pars, func(i, j int) bool { return pars[i].Name() < pars[j].Name() })
+		for _, par := range pars {
+			us := uses[par]
+			n++
+			key := fmt.Sprintf("%s/%s/geometry", p.FuncName(g), par.Name())
+			first := us[0]
+			var other *use
+			for i := range us {
+				if us[i].cls != first.cls {
+					other = &us[i]
+					break
+				}
+			}
+			if other == nil {
+				r.Discharge(rule, key, posOf(p, first.call), fmt.Sprintf("the elements of %s are read with the leaf count %s at all %d sites", par.Name(), first.cls, len(us)), len(us) > 1)
+			} else {
+				r.Violate(rule, key, posOf(p, other.call), fmt.Sprintf("the elements of %s, which the function never writes, are read with the leaf count %s at %s and with %s here: the same positions are interpreted in the geometry of two different forests, so one of the two sites is wrong", par.Name(), first.cls, p.Pos(first.call.Pos()), other.cls), "in "+p.FuncName(g))
+			}
+		}
+	}
+	r.Floor(rule, "position lists read with a leaf count", n, 1)
+}
+
+// leafCountClass: a canonical name for a leaf-count argument: a parameter, or
+// the difference of two parameters.
+func leafCountClass(v ssa.Value) string {
+	switch x := v.(type) {
+	case *ssa.Parameter:
+		return x.Name()
+	case *ssa.BinOp:
+		if x.Op == token.SUB || x.Op == token.ADD {
+			a, b := leafCountClass(x.X), leafCountClass(x.Y)
+			if a != "" && b != "" {
+				return a + x.Op.String() + b
+			}
+		}
+	case *ssa.Convert:
+		return leafCountClass(x.X)
+	}
+	return ""
 }
